@@ -1362,12 +1362,29 @@ theorem get_mem {s : Store} {k : Bytes} {v : Bytes} {vs : List Bytes} (h : s.get
     exact this
   · cases h
 
-/-- W1 (strict: no two declared subnets with the same (map, network, length)), W2 and W3 of the
-range-point table, for all maps at once -/
+/-- W1 (strict: no two declared subnets with the same (map, network, length)) and W3 (no block other
+than `::/0` and `0.0.0.0/0` itself contains `::ffff:0:0/96`: no `::/n` with 0 < n ≤ 80, no
+`::8000:0:0/81` … `::fffe:0:0/95`) of the
+range-point table, for all maps at once. (Until the repair "only ::/0 and 0.0.0.0/0 are default
+routes for the rearranger" also W2, see `SubnetsRdbWFOld`.) -/
 def SubnetsRdbWF (S : List SubnetDecl) : Prop :=
+  S.Pairwise (fun s t => ¬ (s.mapID = t.mapID ∧ s.net = t.net ∧ s.ones = t.ones)) ∧
+  ∀ s ∈ S, ¬ (s.net = 0 ∧ s.ones = 0) → ¬ (s.net = firstIPv4 ∧ s.ones = 96) →
+    ¬ (s.net ≤ firstIPv4 ∧ afterIPv4 ≤ s.net + 2 ^ (128 - s.ones))
+
+/-- the former, stronger condition: W1 (strict), W2 (network `::` only as `::/0`, network
+`::ffff:0:0` only as `0.0.0.0/0`) and W3 -/
+def SubnetsRdbWFOld (S : List SubnetDecl) : Prop :=
   S.Pairwise (fun s t => ¬ (s.mapID = t.mapID ∧ s.net = t.net ∧ s.ones = t.ones)) ∧
   ∀ s ∈ S, (s.net = 0 → s.ones = 0) ∧ (s.net = firstIPv4 → s.ones = 96) ∧
     (s.net ≠ 0 → s.net ≠ firstIPv4 → ¬ (s.net ≤ firstIPv4 ∧ afterIPv4 ≤ s.net + 2 ^ (128 - s.ones)))
+
+instance (S : List SubnetDecl) : Decidable (SubnetsRdbWFOld S) := by
+  unfold SubnetsRdbWFOld; infer_instance
+
+theorem SubnetsRdbWFOld.toWF {S : List SubnetDecl} (h : SubnetsRdbWFOld S) : SubnetsRdbWF S :=
+  ⟨h.1, fun s hs h0 h4 => (h.2 s hs).2.2 (fun e => h0 ⟨e, (h.2 s hs).1 e⟩)
+    (fun e => h4 ⟨e, (h.2 s hs).2.1 e⟩)⟩
 
 instance (S : List SubnetDecl) : Decidable (SubnetsRdbWF S) := by unfold SubnetsRdbWF; infer_instance
 
@@ -1395,7 +1412,7 @@ theorem tableKVs_pairwise (m : Bytes) {P : List Point} (hwf : Lpm.TableWF P) :
   exact hall.imp fun {u v} h =>
     Lpm.pointKV_fst_ne m (hwf.ip_lt u h.1) (hwf.ip_lt v h.2.1) (hwf.ml_lt u h.1) (hwf.ml_lt v h.2.1) h.2.2
 
-/-- the declared subnets of one map satisfy W0–W3 -/
+/-- the declared subnets of one map satisfy W0, W1, W3 -/
 theorem subsWF_filter (subs : List Subnet) (hok : ∀ x ∈ subs, SubnetOK x)
     (hwf : SubnetsRdbWF (subs.map Lpm.declOf)) (m : Bytes) :
     Lpm.SubsWF ((subs.filter (·.lmap = m)).map Lpm.declOf) := by
@@ -1426,11 +1443,7 @@ theorem subsWF_filter (subs : List Subnet) (hok : ∀ x ∈ subs, SubnetOK x)
     exact hab ⟨ea.trans eb.symm, hc.1, hc.2⟩
   · intro s hs
     obtain ⟨x, hx, _, rfl⟩ := hmem s hs
-    have := hall (Lpm.declOf x) (List.mem_map.2 ⟨x, hx, rfl⟩)
-    exact ⟨this.1, this.2.1⟩
-  · intro s hs
-    obtain ⟨x, hx, _, rfl⟩ := hmem s hs
-    exact (hall (Lpm.declOf x) (List.mem_map.2 ⟨x, hx, rfl⟩)).2.2
+    exact hall (Lpm.declOf x) (List.mem_map.2 ⟨x, hx, rfl⟩)
   · intro s hs
     obtain ⟨x, hx, _, rfl⟩ := hmem s hs
     show (x.lo.getD [0, 0]).length = 2
@@ -1770,7 +1783,7 @@ theorem getLocationRdb_rep (store : Store) (z : Zone) (subs : List Subnet)
 /-- **RocksDB (v1 keys).** On the store `compile .rdbV1` builds, `GetLocationByMap` of the RocksDB
 driver returns `Spec.lpm`'s answer on the declared subnets, for every 2-byte map id (with or without
 subnets) and every client whose masked address is masked to its prefix length (W4).
-Forced: W1 (strict), W2, W3 on the declared subnets (`SubnetsRdbWF`); see `Props/C03` §5. -/
+Forced: W1 (strict), W3 on the declared subnets (`SubnetsRdbWF`); see `Props/C03` §5. -/
 theorem getLocationRdb_file (svcb : SvcbFn) (lines : List Bytes) (store : Store) (z : Zone)
     (hc : compile .rdbV1 svcb lines = some store) (hz : zoneOf lines = some z)
     (hwf : SubnetsRdbWF z.subnets) (m : Bytes) (hm : m.length = 2) (c : ClientNet)
